@@ -135,6 +135,8 @@ pub enum Shape {
     Unit,
     Newtype(Ty),
     Enum(Vec<VariantDesc>),
+    /// not a derived receiver at all: a name for a library type (root-level map targets)
+    Alias(Ty),
 }
 
 #[derive(Clone, Debug)]
@@ -288,7 +290,36 @@ pub fn meta_receivers() -> BTreeMap<&'static str, RecvDesc> {
             f("hph", hmap(KeyKind::Str, ph(2607))).dflt(),
         ]),
     ));
+    // keyed collections as root targets (C14); hash maps and their ordered twins share site ids
+    for (h, b, key, val) in [
+        ("RHS", Some("RBS"), KeyKind::Str, pm(2701)),
+        ("RHI", Some("RBI"), KeyKind::Ident, pm(2702)),
+        ("RHP", None, KeyKind::Path, pm(2703)),
+        ("RHH", Some("RBH"), KeyKind::Str, ph(2705)),
+        ("RHB", Some("RBB"), KeyKind::Str, Ty::Bool),
+        ("RHU", Some("RBU"), KeyKind::Str, Ty::U8),
+    ] {
+        add(recv(h, Alias(hmap(key.clone(), val.clone()))));
+        if let Some(b) = b {
+            add(recv(b, Alias(bmap(key, val))));
+        }
+    }
+    add(recv("RHN", Alias(hmap(KeyKind::Str, hmap(KeyKind::Str, pm(2704))))));
+    add(recv("RBN", Alias(bmap(KeyKind::Str, bmap(KeyKind::Str, pm(2704))))));
     m
+}
+
+/// The ordered-map twin of a hash-map root receiver (same key and value types, same site ids).
+pub fn btree_twin(name: &str) -> Option<&'static str> {
+    Some(match name {
+        "RHS" => "RBS",
+        "RHI" => "RBI",
+        "RHH" => "RBH",
+        "RHB" => "RBB",
+        "RHU" => "RBU",
+        "RHN" => "RBN",
+        _ => return None,
+    })
 }
 
 // ------------------------------------------------------------------------------------------------
